@@ -373,6 +373,29 @@ func runC16(c *Ctx) {
 	c16Prog = c.P
 	roots := c16Roots(c)
 	fns := repoCallees(c, roots)
+	parserFns := fns // loop-progress and error propagation are stated for the parsers proper
+	// the command functions that cut up parser input themselves before handing it on (the -type text
+	// with its hist[...] suffix, the opened inputs of auto-detection): their own bodies, and the
+	// single-site helpers they use for it, are parser code as well; what they call beyond that is not
+	{
+		have := map[*ssa.Function]bool{}
+		for _, f := range fns {
+			have[f] = true
+		}
+		for _, n := range []string{"report", "decoder"} {
+			f := c.P.Func("", n)
+			if f == nil {
+				c.Undecided("anchor:main."+n, "parser entry points resolve", "entry point not found")
+				continue
+			}
+			for _, g := range inlinedRegion(c.P, f) {
+				if !have[g] && g.Pkg == f.Pkg {
+					have[g] = true
+					fns = append(fns, g)
+				}
+			}
+		}
+	}
 	for _, f := range fns {
 		c.Saw("function " + shortFn(f))
 	}
@@ -400,10 +423,10 @@ func runC16(c *Ctx) {
 	if nSites < 20 {
 		c.Fail("panic-site:scope", rule, fmt.Sprintf("only %d panic-capable sites enumerated in %d functions: the scope collapsed", nSites, len(fns)))
 	}
-	c16Loops(c, fns)
-	c16ErrorsPropagated(c, fns)
+	c16Loops(c, parserFns)
+	c16ErrorsPropagated(c, parserFns)
 	if c.Tier == "thorough" && c.P.Config == "linux/amd64" {
-		c16BCECrossRef(c, fns)
+		c16BCECrossRef(c, parserFns)
 	}
 }
 
